@@ -302,8 +302,11 @@ class Ref:
 
 # ------------------------------------------------------------------------------------------------ implementation
 def impl(case):
+    import sympy  # noqa: F401  (imports are done outside the timed region: an interrupted import poisons the worker)
+    import sympy.codegen.rewriting  # noqa: F401
+    import cellmlmanip.printer  # noqa: F401
     try:
-        return limited(5, impl_, case)
+        return limited(8, impl_, case)
     except TooSlow:
         return {'built': None, 'why': 'timeout'}
     except (MemoryError, RecursionError) as ex:
